@@ -574,7 +574,7 @@ Definition cases : list (version * bool) := [
 	feVersions := []string{"1.13", "1.16", "1.17", "1.19", ""}
 	feObs := sObs
 	if tier == "thorough" {
-		feVersions = versions
+		feVersions = []string{"1.13", "1.14", "1.15", "1.16", "1.17", "1.18", "1.20", "1.21", "go1.17", ""}
 	} else {
 		// quick: the inputs of version-gated rules only (the plumbing of -go is what the front-ends add)
 		gatedRule := map[string]bool{}
